@@ -103,6 +103,9 @@ func newRegistry(maxPairs int) *reg {
 		if nd == 2 {
 			rt.Assume(denoms[0] != denoms[1])
 		}
+		for _, d := range denoms {
+			rt.Assume(d != "") // invariant: a registered denomination passed the metadata validation of its proposal (never empty)
+		}
 		r.k.SetTokenPair(r.ctx, p)
 		r.k.SetDenomsMap(r.ctx, p.Denoms, p.GetID())
 		r.k.SetERC20Map(r.ctx, p.GetERC20Contract(), p.GetID())
@@ -169,6 +172,12 @@ func (r *reg) convertible(denom string) bool {
 }
 
 func freshMetadata() banktypes.Metadata {
+	m := freshMetadataAny()
+	rt.Assume(m.Base != "") // the proposal's ValidateBasic runs Metadata.Validate: the base is a valid, hence non-empty, denomination
+	return m
+}
+
+func freshMetadataAny() banktypes.Metadata {
 	return banktypes.Metadata{Description: rt.Str("md.Description"), Base: rt.Str("md.Base"), Display: rt.Str("md.Display"), Name: rt.Str("md.Name"), Symbol: rt.Str("md.Symbol"),
 		DenomUnits: []*banktypes.DenomUnit{{Denom: rt.Str("md.unit"), Exponent: rt.U32("md.exponent")}}}
 }
